@@ -114,6 +114,12 @@ def value_features(T, v):
                 f.add('bigstr')
             if n > 0:
                 f.add('nonempty_str')
+        elif k == 'ANY':
+            try:
+                if M.der_rules_tree(bytes(v)):
+                    f.add('any_nonder')
+            except M.ReadError:
+                f.add('any_nonder')
         elif k == 'OCTS':
             if len(v) > 1000:
                 f.add('bigstr')
@@ -169,6 +175,14 @@ class Case(object):
                 self._enc[key] = ('exc', e)
             except Exception as e:
                 self._enc[key] = ('exc', e)
+        return self._enc[key]
+
+    def kf(self, codec, data, defMode=True, chunk=0):
+        """features naming the recorded encoder defects that exactly explain `data` (emu.classify)"""
+        from mc.model import emu
+        key = ('kf', codec, defMode, chunk)
+        if key not in self._enc:
+            self._enc[key] = emu.classify(self.T, self.v, codec, data, defMode, chunk)
         return self._enc[key]
 
     def record(self, **cfg):
